@@ -23,7 +23,7 @@ from sa.callgraph import CallGraph
 from sa.cfg import implied
 from sa.regexsafe import findings as regex_findings
 from sa.report import Ctx
-from sa.shape import Shapes, guard_len
+from sa.shape import Shapes, guard_len, module_int_consts
 from sa.srcmodel import AnalysisError, FunctionInfo, Program, ancestors, dotted, norm, parent, unparse, walk_no_nested
 from sa.util import calls_in, cfg_of, key, node_index, stmt_of, stores_of, where
 
@@ -175,8 +175,9 @@ def run(prog: Program, ctx: Ctx) -> None:  # noqa: PLR0912,PLR0915
                 ctx.ob("R2", k, True, "inside a handler for IndexError", where(f, n))
                 continue
             facts = [(unparse(a), t) for a, t in _short_circuit_facts(n)]
-            per_node = [guard_len(facts + cfg.facts_on_all_paths(cn), subject) for cn in idx.get(id(n), [])]
-            lo = min(per_node) if per_node else guard_len(facts, subject)
+            consts = module_int_consts(f.module)
+            per_node = [guard_len(facts + cfg.facts_on_all_paths(cn), subject, consts) for cn in idx.get(id(n), [])]
+            lo = min(per_node) if per_node else guard_len(facts, subject, consts)
             ok = lo >= need
             ctx.ob("R2", k, ok, f"`{subject}` is known to have at least {lo} element(s) here (dominating test)" if ok else
                    f"possible IndexError: `{unparse(n)}` needs {need} element(s); by construction `{subject}` has at least "
